@@ -192,10 +192,14 @@ def repeatN (p : Prog α) : Nat → Prog (List α)
   | 0 => ret []
   | n + 1 => Prog.bind p fun v => Prog.bind (repeatN p n) fun vs => ret (v :: vs)
 
-/-- One map entry of `DecodeNaked`: the key must be hashable. -/
+/-- One map entry of `DecodeNaked`: the key must be hashable (a `[]byte` key
+    is converted to a string). -/
 def pairOf (p : Prog Value) : Prog (Value × Value) :=
   Prog.bind p fun k =>
-    if k.hashable then Prog.bind p fun v => ret (k, v) else fail .dec
+    if k.hashable then Prog.bind p fun v => ret (k, v)
+    else match k with
+      | .bin s => Prog.bind p fun v => ret (.str s, v)   -- go-codec stores a []byte key as a string
+      | _ => fail .dec
 
 /-- `DecodeNaked`: decode whatever comes next.  `fuel` bounds the nesting
     depth (the oracle passes the number of bytes available, which is an upper
